@@ -35,6 +35,7 @@ and the same thread-exited flag.  Independent oracle: C10 restated on API-level 
 real-time (call/return) order only.
 """
 import collections
+import dataclasses
 import logging
 import time
 
@@ -49,22 +50,56 @@ V0 = 0
 # values
 # ------------------------------------------------------------------------------------------------
 
-def mkval(k):
-    return ("S", k, k * k)
+REPS = ["tuple", "dataclass", "dict"]
+
+
+class TupVal(tuple):
+    """tuple equality (by content); carries the harness's identity tag as an attribute"""
+
+
+@dataclasses.dataclass
+class DcVal:
+    label: str
+    k: int
+    sq: int
+    tag: int = dataclasses.field(default=-1, compare=False)     # not part of the value: equality is by content
+
+
+class DictVal(dict):
+    """dict equality (by content); carries the identity tag as an attribute"""
+
+
+def mkval(k, tag=-1, rep="tuple"):
+    """A settings value with content k.  Equality is by content (two posts of the same k are equal but not
+    identical objects); `tag` says which post it was (the operation index; -1 = the task's initial settings)."""
+    if rep == "dataclass":
+        return DcVal("S", k, k * k, tag)
+    if rep == "dict":
+        v = DictVal(label="S", k=k, sq=k * k)
+    else:
+        v = TupVal(("S", k, k * k))
+    v.tag = tag
+    return v
 
 
 def canon(v):
-    """settings value -> its index; None -> None; anything that is not a whole posted value -> -1."""
+    """settings value -> its content; None -> None; anything that is not a whole value -> -1."""
     if v is None:
         return None
     if isinstance(v, tuple) and len(v) == 3 and v[0] == "S" and isinstance(v[1], int) and v[2] == v[1] * v[1]:
         return v[1]
+    if isinstance(v, DcVal) and v.label == "S" and isinstance(v.k, int) and v.sq == v.k * v.k:
+        return v.k
+    if isinstance(v, dict) and set(v) == {"label", "k", "sq"} and v["label"] == "S" and isinstance(v["k"], int) \
+            and v["sq"] == v["k"] * v["k"]:
+        return v["k"]
     return -1
 
 
-# ------------------------------------------------------------------------------------------------
-# the scenario (runs in a forked child under dsched)
-# ------------------------------------------------------------------------------------------------
+def tagof(v):
+    """which post this object is (None when it is not one of the harness's value objects)"""
+    return getattr(v, "tag", None)
+
 
 END_KINDS = ["ok", "exc", "exc_custom", "baseexc", "sysexit", "kbint", "stopexc", "stopexc_sub"]
 TRACED = ["QMI_Task.update_settings", "QMI_TaskRunner.set_settings", "QMI_TaskRunner.get_pending_settings",
@@ -97,7 +132,7 @@ def line_yields(T, orig_thread_run):
                                T._TaskThread.start_task, T._TaskThread.stop_task])
 
 
-def scenario(s, script, ops, window, lines=False, init_fail=None):
+def scenario(s, script, ops, window, lines=False, init_fail=None, rep="tuple"):
     """script = {"body": [action...], "end": one of END_KINDS};
     actions: ["U"] update_settings, ["P"] stop_requested, ["S", d] self.sleep(d), ["Z", d] plain delay,
              ["L", n, d] up to n rounds of: stop_requested? break; update_settings; self.sleep(d).
@@ -173,7 +208,7 @@ def scenario(s, script, ops, window, lines=False, init_fail=None):
                 raise make_exc(init_fail[0], QMI_TaskStopException)
             orig = self._settings_fifo
             self._settings_fifo = LogDeque(orig, maxlen=orig.maxlen)
-            self.settings = mkval(V0)
+            self.settings = mkval(V0, -1, rep)
 
         def _get_settings(self):
             s.log("settings.get", canon(self._sv))
@@ -188,7 +223,7 @@ def scenario(s, script, ops, window, lines=False, init_fail=None):
         def _upd(self):
             s.log("T_upd_call")
             r = self.update_settings()
-            s.log("T_upd", r if isinstance(r, bool) else repr(r), canon(self._sv))
+            s.log("T_upd", r if isinstance(r, bool) else repr(r), canon(self._sv), tagof(self._sv))
 
         def run(self):
             obs["run_count"] += 1
@@ -311,9 +346,9 @@ def scenario(s, script, ops, window, lines=False, init_fail=None):
         if kind == "bool":
             return ["bool", r] if isinstance(r, bool) else ["weird", repr(r)[:60]]
         if kind == "val":
-            return ["val", canon(r)] if r is not None else ["weird", "None"]
+            return ["val", canon(r), tagof(r)] if r is not None else ["weird", "None"]
         if kind == "opt":
-            return ["opt", canon(r)]
+            return ["opt", canon(r), tagof(r)]
         return ["weird", kind]
 
     def do(op):
@@ -350,7 +385,7 @@ def scenario(s, script, ops, window, lines=False, init_fail=None):
         counter[0] += 1
         if k == "set":
             s.log("call", i, "set", op[1])
-            res = cres("none", lambda: p.set_settings(mkval(op[1])))
+            res = cres("none", lambda: p.set_settings(mkval(op[1], i, rep)))
         else:
             s.log("call", i, k)
             if k == "start":
@@ -637,59 +672,77 @@ def oracle(script, flat_ops_expected_blocked, res):
             if not b and any(y.ret < x.call for y in ok_starts) and t_end > x.ret:
                 return "isrun-false-while-running", "is_running() is False between a successful start() and the end of run()"
     # --- settings hand-over ---
+    # A post is an EVENT: two posts may carry equal values, and a post may equal what the task already holds; each
+    # still counts ("posted since the previous update").  Values are compared by CONTENT (that is all a client can
+    # observe); the identity tag carried by the value objects is used to name posts in messages and to pick among
+    # equal-content posts, never to raise an alarm on its own (delivering an equal value is not a difference).
     posts = [x for x in ops if x.name == "set" and x.res is not None]          # sequential: ordered by idx
+    rank_of_tag = {x.idx: i + 1 for i, x in enumerate(posts)}
+
+    def show(k):
+        return "#%d (content %r)" % (k, posts[k - 1].arg)
     upd_calls = pos_of.get("T_upd_call", [])
     upds = [(pos, d) for pos, k, d in internal if k == "T_upd"]
     last_true = 0      # 1-based rank (in posts) of the post delivered by the latest update that returned True
-    seen = set()
+    delivered = []     # ranks delivered by the updates that returned True (most favourable reading)
     for n, (uret, d) in enumerate(upds):
         ucall = upd_calls[n]
-        r, val = d[0], d[1]
+        r, val, tag = d[0], d[1], (d[2] if len(d) > 2 else None)
         sure = max([i + 1 for i, x in enumerate(posts) if x.ret < ucall], default=0)
         maybe = max([i + 1 for i, x in enumerate(posts) if x.call < uret], default=0)
         if r is True:
-            ranks = [i + 1 for i, x in enumerate(posts) if x.arg == val]
-            if not ranks:
-                return "update-invented", "update_settings() returned True with settings %r that were never posted whole" % (val,)
-            k = ranks[0]
-            if k in seen:
-                return "update-twice", "update_settings() delivered posted value %r twice" % (val,)
-            seen.add(k)
-            if k <= last_true or k < sure:
-                return "update-stale", "update_settings() delivered value %r although a newer value had been posted before" % (val,)
-            if k > maybe:
-                return "update-future", "update_settings() delivered value %r before it was posted" % (val,)
+            same = [i + 1 for i, x in enumerate(posts) if x.arg == val]
+            if val == -1 or val is None or not same:
+                return "update-invented", "update_settings() returned True with settings (content %r, tag %r) that are not a whole posted value" % (val, tag)
+            cands = [k for k in same if last_true < k <= maybe]
+            if not cands:
+                if min(same) > maybe:
+                    return "update-future", "update_settings() delivered content %r before it was posted" % (val,)
+                return "update-stale", "update_settings() returned True with content %r (tag %r): no post of that value since the post " \
+                                       "delivered before (%s)" % (val, tag, show(last_true) if last_true else "none")
+            k = rank_of_tag.get(tag) if rank_of_tag.get(tag) in cands else max(cands)
+            if k < sure and max(cands) >= sure:
+                k = max(cands)
+            if k < sure:
+                return "update-stale", "update_settings() delivered post %s although post %s, the most recent one, had been made before" % (
+                    show(k), show(sure))
             last_true = k
+            delivered.append(k)
         elif r is False:
             if sure > last_true:
-                return "update-missed", "update_settings() returned False although value %r was posted since the previous update" % (
-                    posts[sure - 1].arg,)
+                return "update-missed", "update_settings() returned False although post %s was made since the previous update" % show(sure)
         else:
             return "update-weird", "update_settings() returned %r" % (r,)
     # --- get_settings / get_pending_settings: whole values, newest pending ---
     for x in ops:
         if x.name == "get" and x.res is not None:
-            if x.res[0] != "val" or x.res[1] == -1 or (x.res[1] != V0 and not any(y.arg == x.res[1] and y.call < x.ret for y in posts)):
-                return "get-weird", "get_settings() gave %s" % (x.res,)
+            if x.res[0] != "val" or x.res[1] == -1 or not (
+                    x.res[1] == V0 or any(y.arg == x.res[1] and y.call < x.ret for y in posts)):
+                return "get-weird", "get_settings() gave %s: neither the initial settings nor a whole posted value" % (x.res,)
         if x.name == "getp" and x.res is not None:
             if x.res[0] != "opt" or x.res[1] == -1:
                 return "getp-weird", "get_pending_settings() gave %s" % (x.res,)
             before = [y for y in posts if y.idx < x.idx]
-            v = x.res[1]
+            v, tag = x.res[1], (x.res[2] if len(x.res) > 2 else None)
             if v is None:
-                # None is right only if the newest posted value (or a newer one) was delivered by some update:
-                # an update that returned True with an OLDER value took place before this post and cannot have
-                # consumed it
+                # None is right only if the newest post (or a newer one) was delivered by some update: an update that
+                # returned True with an OLDER post took place before this post and cannot have consumed it
                 pending_upd = len(upd_calls) > len(upds)
                 if before and not pending_upd:
-                    r = posts.index(before[-1]) + 1
-                    delivered = [i + 1 for (_, d) in upds if d[0] is True for i, y in enumerate(posts) if y.arg == d[1]]
-                    if not any(k >= r for k in delivered):
-                        return "getp-lost", "get_pending_settings() gave None although %r was posted and never delivered to the task" % (
-                            before[-1].arg,)
+                    r = rank_of_tag[before[-1].idx]
+                    all_delivered = []
+                    lt = 0
+                    for (uret, d) in upds:          # most favourable reading of every True update in the whole log
+                        if d[0] is True:
+                            c2 = [i + 1 for i, y in enumerate(posts) if y.arg == d[1] and i + 1 > lt]
+                            if c2:
+                                lt = max(c2)
+                                all_delivered.append(lt)
+                    if not any(k >= r for k in all_delivered):
+                        return "getp-lost", "get_pending_settings() gave None although post %s was made and never delivered to the task" % show(r)
             elif not before or before[-1].arg != v:
-                return "getp-stale", "get_pending_settings() gave %r, the newest posted value is %r" % (
-                    v, before[-1].arg if before else None)
+                return "getp-stale", "get_pending_settings() gave content %r (tag %r); the newest post is %s" % (
+                    v, tag, show(rank_of_tag[before[-1].idx]) if before else None)
     # --- stop first: never run ---
     if stoplike and not any(y.idx < stoplike[0].idx for y in starts) and st == "ok" and (begins or o["run_count"]):
         return "run-after-stop", "run() was invoked although stop() came before any start()"
@@ -723,8 +776,10 @@ def gen_ops(rng, blocked=False):
     ctr = [0]
 
     def post():
+        # a SMALL pool with repeats that includes the task's initial settings value (0): equal values are posted
+        # again and again (as distinct objects), and values equal to what the task holds at that moment
         ctr[0] += 1
-        return ["set", ctr[0]]
+        return ["set", rng.choice([0, 0, 1, 1, 2])]
 
     def simple():
         k = rng.choices(["set", "get", "getp", "isrun", "sleep"], weights=[4, 1.5, 1.5, 2.5, 2])[0]
@@ -789,6 +844,37 @@ DFS_LINE_SCENARIOS = [
     ({"body": [["U"], ["U"]], "end": "ok"}, [["set", 1], ["start"], ["set", 2], ["getp"], ["join"]]),
     ({"body": [["P"], ["U"]], "end": "exc"}, [["start"], ["set", 1], ["stop"], ["isrun"], ["join"]]),
 ]
+
+
+def equal_value_bucket():
+    """Posts whose value EQUALS what the task holds at that moment (content 0 = the initial settings), in every
+    state in which set_settings is accepted, with and without an update in between:
+      (a) post B, then post A while the task still holds A: the newest post is A (pending and next update);
+      (b) nothing pending, post a value equal to the one held: it is pending and the next update returns True."""
+    one = {"body": [["U"], ["U"]], "end": "ok"}
+    slow = {"body": [["Z", 1.0], ["U"], ["Z", 1.0], ["U"], ["Z", 1.0], ["U"]], "end": "ok"}
+    out = [
+        # READY_TO_RUN (before start)
+        (one, [["set", 1], ["set", 0], ["getp"], ["start"], ["join"], ["get"], ["getp"]]),
+        (one, [["set", 0], ["getp"], ["start"], ["join"], ["get"], ["getp"]]),
+        # RUNNING, no update in between: the task holds the initial value until t = 1.0
+        (slow, [["start"], ["set", 1], ["set", 0], ["getp"], ["sleep", 1.5], ["getp"], ["get"], ["join"]]),
+        (slow, [["start"], ["set", 0], ["getp"], ["sleep", 1.5], ["getp"], ["get"], ["join"]]),
+        # RUNNING, with an update in between: the task picks up 1 at t = 1.0; then B = 2, A = 1
+        (slow, [["start"], ["set", 1], ["sleep", 1.5], ["get"], ["set", 2], ["set", 1], ["getp"], ["sleep", 1.0], ["get"],
+                ["getp"], ["join"]]),
+        (slow, [["start"], ["set", 1], ["sleep", 1.5], ["get"], ["set", 1], ["getp"], ["sleep", 1.0], ["getp"], ["join"]]),
+        # TASK_STOPPED_BEFORE_START
+        (one, [["stop"], ["set", 1], ["set", 0], ["getp"], ["join"], ["set", 2], ["set", 0], ["getp"]]),
+        (one, [["stop"], ["set", 0], ["getp"], ["join"], ["getp"]]),
+    ]
+    # run() finished (completed / failed), before and after join: the task holds 2
+    for end in ("ok", "exc"):
+        fin = {"body": [["U"]], "end": end}
+        out.append((fin, [["set", 2], ["start"], ["sleep", 0.5], ["isrun"], ["set", 1], ["set", 2], ["getp"], ["join"],
+                          ["set", 1], ["set", 2], ["getp"]]))
+        out.append((fin, [["set", 2], ["start"], ["sleep", 0.5], ["isrun"], ["set", 2], ["getp"], ["join"], ["getp"]]))
+    return out
 
 
 def flat_names(ops):
@@ -994,7 +1080,9 @@ def handle(ck, script, ops, blocked, res, sched_desc, terms, metas, init_fail=No
     ck.count("status:" + res["status"])
     names = flat_names(ops)
     lines = len(sched_desc) > 2 and bool(sched_desc[2])
+    rep = sched_desc[3] if len(sched_desc) > 3 else "tuple"
     replay = {"kind": "life", "script": script, "ops": ops, "blocked": blocked, "window": sched_desc[0], "lines": lines,
+              "rep": rep,
               "init_fail": init_fail, "schedule": res.get("choices"), "status": res["status"]}
     if init_fail:
         ck.count("ctor_raises:%s/%s" % tuple(init_fail))
@@ -1103,6 +1191,14 @@ def run(ck):
                 lines = k % 2 == 1
                 jobs.append((scenario, (script, ops, "ops", lines), dict(strategy="random", seed=rng.randrange(1 << 30))))
                 descr.append((script, ops, False, ("ops", "bucket", lines), None))
+    # ---- fixed bucket: posts equal to the value the task holds, in every state, three value representations ----
+    for script, ops in equal_value_bucket():
+        for rep in REPS:
+            for k in range(2 if quick else 6):
+                lines = k % 2 == 1
+                jobs.append((scenario, (script, ops, "ops", lines, None, rep),
+                             dict(strategy="random", seed=rng.randrange(1 << 30))))
+                descr.append((script, ops, False, ("ops", "bucket-equal", lines, rep), None))
     for kind in END_KINDS[1:]:
         for place in ("pre", "post"):
             for k in range(bucket_seeds):
@@ -1117,11 +1213,12 @@ def run(ck):
         strat = "random" if i < n_random else "pct"
         window = rng.choice(["all", "ops", "ops"])
         lines = rng.random() < line_share
+        rep = rng.choice(REPS)
         kw = dict(strategy=strat, seed=rng.randrange(1 << 30))
         if strat == "random":
             kw["switch_prob"] = rng.choice([0.1, 0.35, 0.6])
-        jobs.append((scenario, (script, ops, window, lines), kw))
-        descr.append((script, ops, False, (window, strat, lines), None))
+        jobs.append((scenario, (script, ops, window, lines, None, rep), kw))
+        descr.append((script, ops, False, (window, strat, lines, rep), None))
     for i in range(n_blocked):
         script, ops = gen_script(rng), gen_ops(rng, blocked=True)
         jobs.append((scenario, (script, ops, "ops"), dict(strategy="random", seed=rng.randrange(1 << 30))))
@@ -1130,6 +1227,7 @@ def run(ck):
         script, ops, blocked, sd, init_fail = descr[idx]
         ck.count("strategy:" + sd[1])
         ck.count("line_yields:%s" % ("on" if sd[2] else "off"))
+        ck.count("value_rep:%s" % (sd[3] if len(sd) > 3 else "tuple"))
         handle(ck, script, ops, blocked, res, sd, terms, metas, init_fail)
     # ---- loop task ----------------------------------------------------------------------------------------------
     lterms, lmetas = [], []
@@ -1240,7 +1338,7 @@ def replay(rep):
         print("oracle:", bad or "property holds on this run")
         return 1 if bad else 0
     res = dsched.run_forked([(scenario, (c["script"], c["ops"], c.get("window", "ops"), c.get("lines", False),
-                                         c.get("init_fail")), kw)], nproc=1, wall_timeout=60.0)[0]
+                                         c.get("init_fail"), c.get("rep", "tuple")), kw)], nproc=1, wall_timeout=60.0)[0]
     print("status:", res["status"])
     o = res.get("obs") or {}
     if o.get("trace") is not None:
